@@ -1281,7 +1281,11 @@ def metric_query(ctx, name, threads, slack, timeout_s):
         # measurements 1, 3, 9 ...; then with coincidence-prone ones (the -1.0 "no timing" sentinel everywhere except one 1000.0),
         # because a defect may depend on an average that equals the next measurement bit for bit
         n_inc = sum(1 for prog in threads for op in prog if op == "inc")
-        input_sets = [[float(3 ** i) for i in range(n_inc)], [-1.0] * (n_inc - 1) + [1000.0], [1000.0] + [-1.0] * (n_inc - 1)]
+        input_sets = [[float(3 ** i) for i in range(n_inc)],
+                      [0.0] * (n_inc - 1) + [1000.0], [1000.0] + [0.0] * (n_inc - 1),       # 0.0 is the INITIAL average: a coincidence already for the first recording
+                      [-1.0] * (n_inc - 1) + [1000.0], [1000.0] + [-1.0] * (n_inc - 1)]
+        budget0 = os.environ.get("VERIF_REPLAY_BUDGET_S")
+        os.environ["VERIF_REPLAY_BUDGET_S"] = str(max(60.0, float(budget0 or "240") / 2))     # per input set
         segs = replay.segments_from_trace(rec["trace"])
         found, why, tried = None, "", 0
         for xs_in in input_sets:
@@ -1316,6 +1320,8 @@ def metric_query(ctx, name, threads, slack, timeout_s):
             f_, why, t_ = replay.search("Metric", 2, [0], [], progs, ["probe"], segs, symptom)
             tried += t_
             if f_: found = f_; break
+        if budget0 is None: os.environ.pop("VERIF_REPLAY_BUDGET_S", None)
+        else: os.environ["VERIF_REPLAY_BUDGET_S"] = budget0
         rec["native_runs"] = tried
         if found: rec.update(verdict="violation", symptom=found["symptom"], replayed=True, native_history=found["history"]["events"], native_segments=found["segments"])
         else: rec.update(verdict="inconclusive", why="model counterexample (final %s) did not reproduce natively: %s" % (rec["model_final"], why))
